@@ -182,7 +182,7 @@ def run(pid, tier):
         vlib.harness_build(BIN)
         keys = set()
         # ---------------- Leg M + Leg R: all completion orders x all outcome combinations ----------------
-        r1 = _replay(chk, pid, "preds", 4 if thorough else 3, 3 if thorough else 3, keys)
+        r1 = _replay(chk, pid, "preds", 4 if thorough else 3, 1 if thorough else 3, keys)
         r2 = _replay(chk, pid, "mixed", 3 if thorough else 2, 3, keys)
         chk.set("model", dict(spec=SPEC_MC, profiles={"preds": dict(MaxIn=4 if thorough else 3, distinct_states=r1.distinct),
                                                       "mixed": dict(MaxIn=3 if thorough else 2, distinct_states=r2.distinct)},
